@@ -41,6 +41,7 @@ pub fn probes(_tier: &str) -> Vec<String> {
     "probe.raw_list_ops",
     "fault.issuer.malformed_status_entry",
     "probe.dense_large_list",
+    "probe.very_long_list",
   ]
   .iter()
   .map(|s| (*s).to_owned())
@@ -199,6 +200,89 @@ pub fn run(_params: &Params) {
         let idx = if k == 0 || ctx::choose(4) != 0 || index >= models[li].len { index } else { ctx::choose(models[li].len) };
         ws.push((idx, ctx::choose(2) == 0));
       }
+      // the caller's closure either propagates a refused write (`?`) or carries on after it; in the second case the
+      // update succeeds and every refused write must have had NO effect
+      let swallow = ctx::choose(3) == 0;
+      if swallow {
+        use identity_credential::revocation::status_list_2021::CredentialStatus;
+        ctx::stat("probe.multi_write_update_swallowing_refusals");
+        let m = &mut models[li];
+        let mut finals: Vec<BTreeSet<usize>> = vec![m.set.clone()];
+        for (i, v) in &ws {
+          if *i >= m.len {
+            continue; // refused, no effect
+          }
+          let mut next: Vec<BTreeSet<usize>> = Vec::new();
+          for st in finals {
+            if m.purpose == StatusPurpose::Revocation && !*v && st.contains(i) {
+              next.push(st.clone()); // refused, no effect
+              if !m.set.contains(i) {
+                // set earlier in this same, uncommitted update: clearing it again may also be allowed
+                let mut applied = st;
+                applied.remove(i);
+                next.push(applied);
+              }
+            } else {
+              let mut applied = st;
+              if *v {
+                applied.insert(*i);
+              } else {
+                applied.remove(i);
+              }
+              next.push(applied);
+            }
+          }
+          next.dedup();
+          finals = next;
+        }
+        let ws2 = ws.clone();
+        let r = ctx::catch(|| {
+          creds[li].update(|l| {
+            for (i, v) in &ws2 {
+              let _ = l.set_entry(*i, *v);
+            }
+            Ok(())
+          })
+        });
+        ctx::sched("mws", ws.iter().fold(0u64, |a, (i, v)| a.wrapping_mul(31).wrapping_add((*i as u64) << 1 | *v as u64)));
+        ctx::trace(format!("step {step}: list{li}({:?}) update swallowing refusals, writes {ws:?} -> {}", m.purpose, match &r { Ok(Ok(())) => "Ok", Ok(Err(_)) => "Err", Err(_) => "panic" }));
+        match r {
+          Err(p) => {
+            ctx::violation("C12", "C12.out_of_range_is_error", "multi-write/panic", format!("update with writes {ws:?} panicked: {p}"));
+            return;
+          }
+          Ok(Err(e)) => ctx::violation(
+            "C12",
+            "C12.independent_bits",
+            format!("multi-write-swallowing/update-failed/{}", <&'static str>::from(&e)),
+            format!("update whose closure returns Ok failed: {e}"),
+          ),
+          Ok(Ok(())) => {
+            let touched: Vec<usize> = ws.iter().map(|(i, _)| *i).filter(|i| *i < m.len).collect();
+            let is_set = |i: usize| !matches!(creds[li].entry(i), Ok(CredentialStatus::Valid));
+            let matching = finals.iter().find(|f| touched.iter().all(|i| f.contains(i) == is_set(*i))).cloned();
+            match matching {
+              Some(f) => {
+                if f != m.set {
+                  nontrivial = true;
+                }
+                m.set = f;
+              }
+              None => {
+                let cleared_revoked = m.purpose == StatusPurpose::Revocation && touched.iter().any(|i| m.set.contains(i) && !is_set(*i));
+                ctx::violation(
+                  "C12",
+                  if cleared_revoked { "C12.revocation_is_one_way" } else { "C12.independent_bits" },
+                  format!("multi-write-swallowing/{}", if cleared_revoked { "refused-clear-took-effect" } else { "entries-match-no-admissible-outcome" }),
+                  format!("after update with writes {ws:?} (refusals ignored by the closure) on a {:?} list the touched entries read {:?}", m.purpose, touched.iter().map(|i| (*i, is_set(*i))).collect::<Vec<_>>()),
+                );
+              }
+            }
+          }
+        }
+        let around: Vec<usize> = ws.iter().map(|(i, _)| (*i).min(models[li].len - 1)).collect();
+        check_list("after-multi-write", &creds[li], &models[li], &around);
+      } else {
       let before_json = serde_json::to_string(&creds[li]).unwrap();
       let m = &mut models[li];
       let mut tmp = m.set.clone();
@@ -268,6 +352,7 @@ pub fn run(_params: &Params) {
       }
       let around: Vec<usize> = ws.iter().map(|(i, _)| (*i).min(models[li].len - 1)).collect();
       check_list("after-multi-write", &creds[li], &models[li], &around);
+      }
     } else {
     let value = ctx::choose(3) != 0;
     let api = if reassign_k.is_some() { 0 } else { ctx::choose(3) };
@@ -549,6 +634,35 @@ pub fn run(_params: &Params) {
           "C12.encoded_form_round_trip",
           "dense-large/own-encoding-rejected",
           format!("a {len}-entry list with {set_count} set entries does not decode again: {e}"),
+        ),
+      }
+    }
+  }
+
+  // ---- a very long, sparse list (more than 2^24 entries, i.e. more than 2 MiB uncompressed): high indices survive ----
+  if ctx::choose(100) == 0 {
+    ctx::stat("probe.very_long_list");
+    let entries = 16_777_216 + 8 * (1 + ctx::choose(100_000));
+    if let Ok(mut list) = StatusList2021::new(entries) {
+      let len = list.len();
+      let marks = [0usize, 16_777_215, 16_777_216, len - 1, 16_777_216 + ctx::choose(len - 16_777_216)];
+      for i in marks {
+        let _ = list.set(i, true);
+      }
+      let enc = list.clone().into_encoded_str();
+      match StatusList2021::try_from_encoded_str(&enc) {
+        Ok(back) if back.len() == len && marks.iter().all(|i| back.get(*i).ok() == Some(true)) && back == list => {}
+        Ok(back) => ctx::violation(
+          "C12",
+          "C12.encoded_form_round_trip",
+          "very-long/encode-decode-differs",
+          format!("a {len}-entry list with entries {marks:?} set decodes to a {}-entry list", back.len()),
+        ),
+        Err(e) => ctx::violation(
+          "C12",
+          "C12.encoded_form_round_trip",
+          "very-long/own-encoding-rejected",
+          format!("a {len}-entry list does not decode again: {e}"),
         ),
       }
     }
